@@ -163,7 +163,8 @@ def finalize(results, counters, tier, seed):
     if counters.get("status", {}).get("ok", 0) < N[tier] // 4:
         inc.append("too few executed cases: %r" % counters.get("status"))
     miss = [s for s in ("S1", "S2", "S3", "S6", "S8", "loop-input-rank", "partitioned", "halo",
-                        "channel", "filter-partitioned", "extra-output-operand")
+                        "channel", "filter-partitioned", "extra-output-operand",
+                        "both-dims-partitioned")
             if counters.get("strata_ok", {}).get(s, 0) == 0]
     if miss:
         inc.append("strata never executed: %r" % miss)
